@@ -71,3 +71,40 @@ pub fn vcall_file_callback(cb: &VFileCb, context: VCtx, name: VBytePtr, name_len
 pub fn vstring_as_ptr(s: &String) -> (r: VBytePtr) ensures r.bytes@ == str_bytes(s@) { unimplemented!() }
 #[verifier::external_body]
 pub fn vstring_len(s: &String) -> (r: usize) ensures r == str_bytes(s@).len() { unimplemented!() }
+
+// ---- objects rebuilt from a handle for the time of ONE call (Box::from_raw ... Box::leak): bookkeeping of what the call still owns
+/// how many objects this call has rebuilt from caller-held handles and not yet given back (Box::leak). An object still owned when the
+/// function returns is DROPPED (freed) while the caller keeps its handle.
+pub struct VLive { pub owned: Ghost<int> }
+/// unsafe { Box::from_raw(h.cast::<ArchiveWriter<..>>()) }  [rewrite R16]: only from a non-null handle
+#[verifier::external_body]
+pub fn vbox_writer_take(h: CHandle, live: &mut VLive) -> (r: VWriterBox)
+    requires h.addr != 0 ensures r.from@ == h, final(live).owned@ == old(live).owned@ + 1 { unimplemented!() }
+/// Box::leak(archive);  [rewrite R16]: the object stays alive behind the caller's handle
+#[verifier::external_body]
+pub fn vbox_writer_give_back(b: VWriterBox, live: &mut VLive) ensures final(live).owned@ == old(live).owned@ - 1 { unimplemented!() }
+#[verifier::external_body]
+pub fn vbox_fileid_take(h: CHandle, live: &mut VLive) -> (r: VFileIdBox)
+    requires h.addr != 0 ensures r.from@ == h, final(live).owned@ == old(live).owned@ + 1 { unimplemented!() }
+#[verifier::external_body]
+pub fn vbox_fileid_give_back(b: VFileIdBox, live: &mut VLive) ensures final(live).owned@ == old(live).owned@ - 1 { unimplemented!() }
+/// Box::into_raw(Box::new(fileid)): a fresh non-null handle
+#[verifier::external_body]
+pub fn vbox_fileid_into_raw(id: u64) -> (r: CHandle) ensures r.addr != 0 { unimplemented!() }
+/// `*const c_char` argument and CStr::from_ptr(p).to_string_lossy()
+pub struct VCStrPtr { pub null: bool }
+impl VCStrPtr { pub fn is_null(&self) -> (r: bool) ensures r == self.null { self.null } }
+#[verifier::external_body]
+pub fn vcstr_lossy(p: &VCStrPtr) -> (r: String) requires !p.null { unimplemented!() }
+/// `*const u8` + length argument
+pub struct VBufPtr { pub null: bool }
+impl VBufPtr { pub fn is_null(&self) -> (r: bool) ensures r == self.null { self.null } }
+pub struct VSliceArg { _p: u8 }
+#[verifier::external_body]
+pub fn vslice_from_raw(p: &VBufPtr, n: usize) -> (r: VSliceArg) requires !p.null { unimplemented!() }
+impl VWriterBox {
+    #[verifier::external_body]
+    pub fn start_file(&mut self, name: &String) -> (r: Result<u64, Error>) ensures final(self).from == old(self).from { unimplemented!() }
+    #[verifier::external_body]
+    pub fn append_file_content(&mut self, id: u64, size: u64, src: VSliceArg) -> (r: Result<(), Error>) ensures final(self).from == old(self).from { unimplemented!() }
+}
